@@ -239,7 +239,9 @@ func (d *ADoc) Render() M {
 			for _, p := range df.Parents {
 				all = append(all, M{"$ref": "#/definitions/" + p})
 			}
-			all = append(all, own)
+			if len(props) > 0 || len(df.Required) > 0 || df.AddProps != "" {
+				all = append(all, own) // a definition that only extends its parents has a single allOf member
+			}
 			defs[df.Name] = M{"allOf": all}
 		} else {
 			defs[df.Name] = own
@@ -480,7 +482,7 @@ var RuleEdits = []string{
 	"!DupOperationId", "!UndeclaredPlaceholder", "!ExtraPathParam", "!PathParamNotRequired", "!DupPlaceholder", "!EmptyPlaceholder", "!DupNameIn", "!SecondBody",
 	"!BodyAndFormData", "!ArrayParamNoItems", "!NestedItemsNoItems", "!HeaderArrayNoItems", "!BodySchemaArrayNoItems", "!ResponseSchemaArrayNoItems", "!DefinitionArrayNoItems",
 	"!RequiredUndefined", "!RequiredVsAdditionalFalse", "!RequiredNotInAdditionalSchema", "!DanglingRef", "!DupInheritedProperty", "!CircularAncestryDirect", "!CircularAncestryIndirect",
-	"!OverlappingPaths", "!BadPatternParam", "!BadPatternHeader", "!BadPatternSchema", "!BadPatternItems",
+	"!OverlappingPaths", "!CircularAncestryBareRing", "!PathParamOnPlainPath", "!DupInheritedViaBareChild", "!BadPatternParam", "!BadPatternHeader", "!BadPatternSchema", "!BadPatternItems",
 	"=AddUnrelatedDefinition", "=RequiredViaAdditionalTrue", "=RequiredViaAdditionalSchema", "=MixedSegmentSiblings", "=MoveParamToPathLevel", "=SameParamNameOtherLocation", "=EmptyOperationIds",
 }
 
@@ -641,6 +643,13 @@ func ApplyRuleEdit(d *ADoc, e string, r *rand.Rand) (ok bool) {
 		d.Defs = append(d.Defs, ADef{Name: "Loop", Props: []string{"l"}, Parents: []string{"Loop"}})
 	case "!CircularAncestryIndirect":
 		d.Defs = append(d.Defs, ADef{Name: "LoopA", Props: []string{"la"}, Parents: []string{"LoopB"}}, ADef{Name: "LoopB", Props: []string{"lb"}, Parents: []string{"LoopA"}})
+	case "!CircularAncestryBareRing":
+		// a ring in which every definition ONLY extends the next one (single-member allOf)
+		d.Defs = append(d.Defs, ADef{Name: "RingA", Parents: []string{"RingB"}}, ADef{Name: "RingB", Parents: []string{"RingC"}}, ADef{Name: "RingC", Parents: []string{"RingA"}})
+	case "!PathParamOnPlainPath":
+		d.Paths = append(d.Paths, APath{Template: "/plain/path", Ops: []AOp{{Method: "get", ID: "plainOp", Params: []AParam{{Name: "ghost", Loc: "path", Required: true, Type: "string"}}, Resps: []AResp{{Code: "200"}}}}})
+	case "!DupInheritedViaBareChild":
+		d.Defs = append(d.Defs, ADef{Name: "G1", Props: []string{"shared"}}, ADef{Name: "G2", Props: []string{"shared", "z"}, Parents: []string{"G1"}}, ADef{Name: "G3", Parents: []string{"G2"}})
 	case "!OverlappingPaths":
 		d.Paths = append(d.Paths,
 			APath{Template: "/ov/{one}", Ops: []AOp{{Method: "get", ID: "ov1", Params: []AParam{{Name: "one", Loc: "path", Required: true, Type: "string"}}, Resps: []AResp{{Code: "200"}}}}},
